@@ -74,8 +74,19 @@ def strategy(tier):
     n = 10 if tier == "quick" else 30
     return st.fixed_dictionaries(dict(
         mode=st.sampled_from(["live", "live", "sim"]),
-        ops=st.lists(action(), min_size=1, max_size=n),
-        sim_allowed=st.sampled_from(["0-3", "0", "0-2,5-6", "1,3", None, "0-1", "2-3"]),
+        # ("hotplug", n): CPUs come on/off line between two requests
+        # (simulated tier only; skipped by the live tier)
+        ops=st.lists(st.one_of(action(), action(), action(), action(),
+                               st.tuples(st.just("cpu_affinity"), st.just([])),
+                               st.tuples(st.just("hotplug"), st.sampled_from([1, 2, 4, 8, 16, 64, 128]))),
+                     min_size=1, max_size=n),
+        sim_ncpus=st.sampled_from([8, 8, 1, 2, 4, 16, 64]),
+        # simulated tier: the sequence is preceded by a cpu_affinity([]) made
+        # while only this many CPUs were online (anything psutil remembered
+        # from that call is stale afterwards)
+        sim_warmup=st.sampled_from([None, None, 1, 2, 4]),
+        sim_allowed=st.sampled_from(["0-3", "0", "0-2,5-6", "1,3", None, None, None, "0-1", "2-3",
+                                     "0-100", "60-70"]),
         # run the whole sequence inside `with p.oneshot():` (set, then get, in one block)
         oneshot=st.booleans(),
     ))
@@ -157,6 +168,8 @@ def _run_live(case, state):
         restricted = False
         for op in case["ops"]:
             kind = op[0]
+            if kind == "hotplug":
+                continue
             before = snapshot(target.pid)
             desc = f"{kind}{tuple(op[1:])}"
             # ---- get == kernel
@@ -306,19 +319,26 @@ def run_sim(case):
 
     known = known_keys("C18")
     strict = bool(case.get("allow_known"))
-    k = simk.Kernel(ncpus=8)
+    ncpus = case.get("sim_ncpus", 8)
+    k = simk.Kernel(ncpus=ncpus)
     k.add_default_sysfiles()
     k.spawn(1, comm=b"init", ppid=0, starttime=1)
     tgt = k.spawn(50, comm=b"t", starttime=9)
     other = k.spawn(51, comm=b"o", starttime=9)
     allowed = case["sim_allowed"]
-    if allowed is None:
-        elig = set(range(8))
-    else:
-        elig = set()
+    cpuset = None
+    if allowed is not None:
+        cpuset = set()
         for part in allowed.split(","):
             a, _, b = part.partition("-")
-            elig |= set(range(int(a), int(b or a) + 1))
+            cpuset |= set(range(int(a), int(b or a) + 1))
+        if not any(c < ncpus for c in cpuset):
+            cpuset = None   # a cpuset without an online CPU cannot exist
+
+    def eligible():
+        return set(range(ncpus)) if cpuset is None else {c for c in cpuset if c < ncpus} \
+            or set(range(ncpus))
+    elig = eligible()
     # the kernel publishes the *current* mask in Cpus_allowed_list; the CPUs
     # the task may ever use (cpuset) are `elig`
     tgt.affinity = set(elig)
@@ -326,10 +346,26 @@ def run_sim(case):
     labels = set()
     nontrivial = set()
     excluded = 0
+    ops = list(case["ops"])
+    if case.get("sim_warmup"):
+        ops = [("hotplug", case["sim_warmup"]), ("cpu_affinity", []), ("hotplug", ncpus)] + ops
+        labels.add("sim-warmup-with-fewer-cpus")
     with simk.installed(k):
         p = psutil.Process(50)
-        for op in case["ops"]:
+        for op in ops:
             kind = op[0]
+            if kind == "hotplug":
+                ncpus = op[1]
+                k.ncpus = ncpus
+                elig = eligible()
+                tgt.cpuset = set(elig)
+                # the kernel shrinks a mask that lost CPUs; an emptied mask is
+                # reset to the cpuset
+                tgt.affinity = (tgt.affinity & elig) or set(elig)
+                if other.affinity is not None:
+                    other.affinity = (other.affinity & set(range(ncpus))) or None
+                labels.add("sim-hotplug")
+                continue
             n0 = len(k.setcalls)
             o_before = (other.nice, other.ioprio, other.affinity, dict(other.rlimits))
             exc = None
@@ -348,7 +384,7 @@ def run_sim(case):
                     want = ("ioprio_set", 50, cls, lvl or 0)
                 elif kind == "cpu_affinity":
                     cpus = list(op[1])
-                    if cpus and not (all(0 <= c < 8 for c in cpus) and set(cpus) & elig):
+                    if cpus and not (all(0 <= c < ncpus for c in cpus) and set(cpus) & elig):
                         if any(c in elig for c in cpus) and all(c >= 0 for c in cpus):
                             continue  # mixed list: see the live tier
                         valid = False
